@@ -384,7 +384,7 @@ func WireOrder(res *fw.Result, frames []px.Frame, sig string) {
 func RunHealthy(d *fw.Driver, res *fw.Result, seed int64, thorough bool) error {
 	r := fw.Rng(seed, "c07")
 	lengths := []int{0, 1, 31, 32, 33, 257, 1000}
-	rounds := 8
+	rounds := 16
 	if thorough {
 		rounds = 60
 	}
